@@ -424,6 +424,32 @@ def _os_open(path, flags, mode=0o777, *a, **kw):
         _tl.depth -= 1
 
 
+def _fd_path(fd):
+    try:
+        return os.readlink("/proc/self/fd/%d" % fd)
+    except OSError:
+        return None
+
+
+def _mk_fd_write(name, fd_arg=0):
+    """os.sendfile / os.copy_file_range / os.write / os.ftruncate: kernel-visible data steps on a
+    descriptor (shutil's fast-copy path writes this way)."""
+    real = getattr(os, name)
+
+    def fn(*a, **kw):
+        run = _active()
+        if run is None:
+            return real(*a, **kw)
+        fd = a[fd_arg] if len(a) > fd_arg else None
+        ap = _fd_path(fd) if isinstance(fd, int) else None
+        if ap is None or not _inside(run, ap):
+            return real(*a, **kw)
+        run.event("truncate" if name == "ftruncate" else "write", name, ap)
+        return real(*a, **kw)
+
+    return fn
+
+
 def _listdir(path="."):
     real = _real[("os", "listdir")]
     run = _active()
@@ -583,6 +609,10 @@ class FileProxy(object):
             return None
         run = _active()
         task = getattr(_tl, "task", 0)
+        if self._run.dead_tasks and (task in self._run.dead_tasks or self._run.crashed):
+            # a dead process closes nothing: buffered bytes are lost with it
+            self._discard()
+            return None
         if run is not None and run is self._run:
             try:
                 run.event("close-w", "close", self._path, extra="dirty" if self._dirty else None)
@@ -663,6 +693,9 @@ def install():
     _patch(io, "open", _open)
     _patch(builtins, "open", _open)
     _patch(fcntl, "flock", _flock)
+    for name, pos in (("sendfile", 0), ("copy_file_range", 1), ("write", 0), ("ftruncate", 0)):
+        if hasattr(os, name):
+            _patch(os, name, _mk_fd_write(name, pos))
     tempfile._name_sequence = _SeededNames()
     # tempfile binds "from os import ..."? no: it uses _os.<fn> and _io.open -> patched attrs.
 
